@@ -5,10 +5,10 @@ Everything here runs natively against the repository code (imported from the tre
 import itertools
 import random
 
-LEAF_BOUNDS = [(0, 1), (0, 1), (0, 1), (-2, 2), (0, 3), (1, 2), (-3, -1), (-32768, 32767)]
+LEAF_BOUNDS = [(0, 1), (0, 1), (0, 1), (-2, 2), (0, 3), (1, 2), (-3, -1), (-32768, 32767), (-2, 0)]
 
 
-def leaf_pool(n=8, int_leaves=True):
+def leaf_pool(n=9, int_leaves=True):
     import puan
     pool = []
     for k in range(n):
